@@ -99,6 +99,22 @@ def gen_source(rng, kind):
         src.update(vertices=V, current=rng.choice([-1, 1]) * rng.uniform(0.2, 5))
     else:
         raise ValueError(kind)
+    # the laws do not know about units or about where the local origin is: for the classes whose
+    # code has no absolute tolerance (those with one are C12's subject) use every length decade
+    # from nm to km, and describe conductors by vertices far away from their local origin
+    if kind in ("Cuboid", "Cylinder", "Sphere", "Circle", "Polyline", "Dipole") and rng.random() < 0.25:
+        unit = 10.0 ** rng.uniform(-9, 3)
+        src["pos"] = [x * unit for x in src["pos"]]
+        for key in ("dimension", "diameter", "vertices"):
+            if key in src:
+                src[key] = (np.array(src[key], dtype=float) * unit).tolist()
+        src["unit"] = unit
+    if kind == "Polyline" and rng.random() < 0.4:
+        V = np.array(src["vertices"], dtype=float)
+        size = float(np.max(np.linalg.norm(V - V.mean(axis=0), axis=1)))
+        off = runit(rng) * size * 10.0 ** rng.uniform(1, 6.5)
+        src["vertices"] = (V + off).tolist()
+        src["pos"] = list(np.array(src["pos"], dtype=float) - R.from_rotvec(src["rotvec"]).apply(off))
     return src
 
 
